@@ -30,7 +30,26 @@ Inductive sender :=
 | Peer (k : nat)
 | NoPeer (n : nat).
 
-Record smsg := SMsg { s_from : sender; s_body : body; s_sig : sigt }.
+(* Signature.pub_key: nothing attached, the marshalled public key of key k, or
+   bytes that do not parse as a public key.  The attached key is only checked
+   for well-formedness (Signature.Validate); the verification key is the one
+   embedded in FromPeerId. *)
+Inductive attach :=
+| NoKey
+| KeyOf (k : nat)
+| BadKey (n : nat).
+
+Record smsg := SMsg { s_from : sender; s_body : body; s_sig : sigt; s_att : attach }.
+
+Definition att_ok (a : attach) : bool := match a with BadKey _ => false | _ => true end.
+
+Definition attach_eqb (a b : attach) : bool :=
+  match a, b with
+  | NoKey, NoKey => true
+  | KeyOf k, KeyOf k' => Nat.eqb k k'
+  | BadKey n, BadKey n' => Nat.eqb n n'
+  | _, _ => false
+  end.
 
 Definition body_eqb (a b : body) : bool :=
   match a, b with
@@ -54,7 +73,8 @@ Definition sender_eqb (a b : sender) : bool :=
   end.
 
 Definition smsg_eqb (a b : smsg) : bool :=
-  sender_eqb (s_from a) (s_from b) && body_eqb (s_body a) (s_body b) && sigt_eqb (s_sig a) (s_sig b).
+  sender_eqb (s_from a) (s_from b) && body_eqb (s_body a) (s_body b) && sigt_eqb (s_sig a) (s_sig b) &&
+  attach_eqb (s_att a) (s_att b).
 
 (* ---------- pubmessage.ExtractAndVerify ---------- *)
 
@@ -80,7 +100,7 @@ Definition extract_and_verify (m : smsg) : outcome vmsg :=
       else
         match s_from m, s_sig m with
         | Peer k, Sig k' ctx b =>
-            if Nat.eqb k k' && bytes_eqb ctx (pub_ctx ch) && body_eqb b (s_body m)
+            if att_ok (s_att m) && Nat.eqb k k' && bytes_eqb ctx (pub_ctx ch) && body_eqb b (s_body m)
             then Ok (VMsg k data ch)
             else Err E_SIGNED
         | _, _ => Err E_SIGNED
@@ -90,7 +110,8 @@ Definition extract_and_verify (m : smsg) : outcome vmsg :=
 (* ---------- the receiving node ---------- *)
 
 (* SignedMsg.ComputeMessageID = BLAKE3(sig_data || from_peer_id): a free
-   function of the signature and the sender string. *)
+   function of the signature and the sender string (the attached public key
+   and the body are not part of it). *)
 Definition msgid := (sigt * sender)%type.
 Definition msg_id (m : smsg) : msgid := (s_sig m, s_from m).
 Definition msgid_eqb (a b : msgid) : bool := sigt_eqb (fst a) (fst b) && sender_eqb (snd a) (snd b).
